@@ -490,6 +490,9 @@ func typeWriterCallContext(w *genWalker, tw *ast.FuncDecl, st ast.Stmt) (string,
 		if tv, ok := w.info.Types[x]; ok && tv.Value != nil && tv.Value.Kind() == constant.String {
 			return constant.StringVal(tv.Value), true
 		}
+		if k, ok := w.synthConst[x]; ok {
+			return k, true // constant text of a format string, cut out by the walker
+		}
 		return "", false
 	}
 	for i, op := range ops {
@@ -561,6 +564,9 @@ func usesIdent(info *types.Info, n ast.Node, obj types.Object) bool {
 // typeWriter: the generator function with a *idl.Type parameter and a bool parameter that switches on the kind.
 func typeWriter(p *Prog, w *genWalker) (*ast.FuncDecl, types.Object, *ast.SwitchStmt) {
 	info := p.Pkgs[pkgGen].TypesInfo
+	var fallbackFd *ast.FuncDecl
+	var fallbackFlag types.Object
+	var fallbackSw *ast.SwitchStmt
 	for _, fd := range w.decls() {
 		if fd.Type.Params == nil {
 			continue
@@ -582,10 +588,29 @@ func typeWriter(p *Prog, w *genWalker) (*ast.FuncDecl, types.Object, *ast.Switch
 		for _, s := range fd.Body.List {
 			if sw, ok := s.(*ast.SwitchStmt); ok {
 				if se, ok := sw.Tag.(*ast.SelectorExpr); ok && se.Sel.Name == "Kind" {
-					return fd, flag, sw
+					// (the type writer renders element types by calling itself; a function that merely decides by kind
+					// - `convert(expr, t, tagged)` - does not)
+					self := false
+					ast.Inspect(fd.Body, func(n ast.Node) bool {
+						if c, ok := n.(*ast.CallExpr); ok {
+							if id, ok := c.Fun.(*ast.Ident); ok && info.Uses[id] == info.Defs[fd.Name] {
+								self = true
+							}
+						}
+						return !self
+					})
+					if self {
+						return fd, flag, sw
+					}
+					if fallbackFd == nil || fd.Pos() < fallbackFd.Pos() {
+						fallbackFd, fallbackFlag, fallbackSw = fd, flag, sw
+					}
 				}
 			}
 		}
+	}
+	if fallbackFd != nil {
+		return fallbackFd, fallbackFlag, fallbackSw
 	}
 	// a type writer written without a switch on the kind: lookup tables and guard clauses (`if t.Kind == K { ...; return }`):
 	// the function with a *idl.Type and a bool parameter that inspects the kind and calls itself for the element types
@@ -816,6 +841,14 @@ func tail(s string, n int) string {
 
 // lastConstOf / firstConstOf: the last / first constant string piece written by a `b.WriteString(expr)` statement.
 func writeArg(st ast.Stmt) ast.Expr {
+	// the text of a function that returns its text (a type writer `func goType(t *idl.Type, ...) string`): a returned
+	// string other than the contents of the function's own builder
+	if ret, ok := st.(*ast.ReturnStmt); ok {
+		if w := curWalker; w != nil && len(ret.Results) == 1 && w.isStringExpr(ret.Results[0]) && !w.isLocalBuilderResult(ret.Results[0]) {
+			return ret.Results[0]
+		}
+		return nil
+	}
 	es, ok := st.(*ast.ExprStmt)
 	if !ok {
 		return nil
@@ -829,15 +862,31 @@ func writeArg(st ast.Stmt) ast.Expr {
 	}
 	// an emit helper of the generator that writes its (variadic) string arguments in order
 	if w := curWalker; w != nil && !call.Ellipsis.IsValid() {
+		// fmt.Fprintf(&buf, "format", args...)
+		if se, ok := call.Fun.(*ast.SelectorExpr); ok && se.Sel.Name == "Fprintf" && len(call.Args) >= 2 {
+			if id, ok := se.X.(*ast.Ident); ok && id.Name == "fmt" {
+				if e, ok := w.formatExpr(call.Args[1], call.Args[2:]); ok {
+					return e
+				}
+				return nil
+			}
+		}
 		var fd *ast.FuncDecl
 		switch f := call.Fun.(type) {
 		case *ast.Ident:
-			fd = w.funcs[f.Name]
+			fd = w.funcDeclOf(f)
 		case *ast.SelectorExpr:
 			fd = w.methodDecl(f)
 		}
 		if fd != nil && variadicEmitter(w.info, fd) {
 			return concatArgs(call.Args[len(call.Args)-variadicCount(fd, call):])
+		}
+		if fd != nil {
+			if fi := formatEmitter(w.info, fd); fi >= 0 && fi < len(call.Args) {
+				if e, ok := w.formatExpr(call.Args[fi], call.Args[fi+1:]); ok {
+					return e
+				}
+			}
 		}
 	}
 	return nil
@@ -862,6 +911,11 @@ func constParts(info *types.Info, e ast.Expr) []string {
 	}
 	if tv, ok := info.Types[e]; ok && tv.Value != nil && tv.Value.Kind() == constant.String {
 		return []string{constant.StringVal(tv.Value)}
+	}
+	if w := curWalker; w != nil {
+		if k, ok := w.synthConst[e]; ok {
+			return []string{k}
+		}
 	}
 	switch x := e.(type) {
 	case *ast.ParenExpr:
